@@ -2,7 +2,9 @@
 //!
 //! `OwnershipRegisters` cannot be named outside fuel-vm, so the owner-checked `MemoryInstance::write` is reached
 //! through the store instructions of a REAL interpreter whose `$ssp/$sp/$hp` registers are set to chosen values:
-//! `MCL`/`MCLI` (`write(owner, a, n)` then fill 0), `SB`/`SW` (`write_bytes(owner, a+imm·size, …)`). `prev_hp`
+//! `MCL`/`MCLI` (`write(owner, a, n)` then fill 0), `SB`/`SW` (`write_bytes(owner, a+imm·size, …)`), and through writers
+//! whose write sits on a failure / alternative path: `ECK1`/`ECR1` with an unrecoverable signature (zero fill), `S256`/`K256`,
+//! `BHSH` of a future height, `WDDV`/`WQAM` with a zero divisor/modulus under UNSAFEMATH (`$err = 1`). `prev_hp`
 //! comes from the interpreter's real call frames: a script-context VM (`prev_hp = VM_MAX_RAM`) and VMs stopped
 //! inside a real `CALL` made after the script allocated `H` bytes of heap (`prev_hp = VM_MAX_RAM − H`).
 //!
